@@ -102,8 +102,19 @@ func genC02(r *Rand, tier string) []Case {
 				t.rows[(k+1)%len(t.rows)] = map[string]any{"id": float64(99)}
 			}
 		}
-		doc := map[string]any{"t": t.rows}
 		var tags []string
+		if r.Chance(20) {
+			// keys spelled like paths next to the nested objects those paths lead into: a reference is a path
+			for _, row := range t.rows {
+				m := row.(map[string]any)
+				if len(m) > 0 {
+					m["o.k"] = "dotted-key"
+					m["o.p.q"] = float64(-77)
+				}
+			}
+			tags = append(tags, "rows:look-alike-dotted-keys")
+		}
+		doc := map[string]any{"t": t.rows}
 		items := genItems(r, t, 4, &tags)
 		if r.Chance(15) {
 			// arithmetic whose operands are literals and a CASE with literal branches but a row-dependent condition
@@ -423,11 +434,17 @@ func genDupTable(r *Rand, maxRows int) []any {
 		{"a": map[string]any{"k": nil}}, {"a": map[string]any{"k": "<nil>"}},
 		{"a": map[string]any{"k": "v w:z"}}, {"a": map[string]any{"k": "v", "w": "z"}},
 		{"a": []any{[]any{float64(1), float64(2)}}}, {"a": []any{"[1 2]"}},
+		// column NAMES with punctuation that a name:value, rendering would confuse with another row's columns
+		{"a": float64(1), "b": float64(2)}, {"a:1,b": float64(2)}, {"a": float64(1), "b:2,c": float64(3)}, {"a:1": float64(1)}, {"a": "1,b:2"},
+		{"a\":1,\"b": float64(2)}, {"a": float64(1), "b": "x", "": "x"}, {"a b": "x"},
 	}
 	k := 1 + r.Intn(4)
 	var pool []map[string]any
 	for i := 0; i < k; i++ {
 		pool = append(pool, Pick(r, protos))
+	}
+	if r.Chance(10) {
+		pool = protos[len(protos)-8:] // the column-name family together
 	}
 	n := r.Intn(maxRows + 1)
 	rows := make([]any, n)
@@ -487,6 +504,18 @@ func genC06(r *Rand, tier string) []Case {
 				}
 				tags = append(tags, "union-limit")
 			}
+		}
+		if r.Chance(6) {
+			// a UNION whose operands have their own WITH, as the body of a CTE that both sides of an outer UNION ALL read:
+			// the same parsed union is built twice and must give the same rows both times
+			own := func(name, tb string) *Stmt {
+				return &Stmt{From: &From{K: "table", Path: []string{name}}, Items: []Item{{E: Col("a")}},
+					With: []CTE{{Name: name, Q: &Stmt{From: &From{K: "table", Path: []string{tb}}, Items: []Item{{E: Col("a")}}}}}}
+			}
+			body := &Stmt{Union: true, All: r.Bool(), L: own("x", "t"), R: own("y", "u")}
+			read := func() *Stmt { return &Stmt{From: &From{K: "table", Path: []string{"cw"}}, Items: []Item{{Star: true}}} }
+			q = &Stmt{Union: true, All: true, With: []CTE{{Name: "cw", Q: body}}, L: read(), R: read()}
+			tags = []string{"union-body-built-twice"}
 		}
 		out = append(out, mkCase(doc, q, tags, true))
 	}
